@@ -397,6 +397,29 @@ def initialisation_order_cases():
     return out
 
 
+def similar_name_cases():
+    """private globals and functions of an imported file whose names differ only in front - by `h`, `_` or hexadecimal digits, the characters of
+    the file prefix h<7 hex digits>_ - stay different names, whatever the content hash of the file is: eight variants of each file (a number
+    in a comment changes the hash, so the hexadecimal digits of the prefixes vary) (round 12: C09-E built the prefixed name with
+    strings.TrimLeft(name, prefix), which takes a SET of characters: hits / its, _tmp / tmp, a / b became one name)"""
+    out = []
+    for v in range(8):
+        stats = ('// variant %d\nhits, its := 10, 20\nfunc Hit() {\n\thits = hits + 1\n}\nfunc Report() string {\n\treturn itoa(hits) + " " + itoa(its)\n}\n' % v)
+        out.append(("similar-hits-its-%d" % v, {"main.tsh": 'import st "stats.tsh"\nst.Hit()\nprint(st.Report())\n', "stats.tsh": stats}, "11 20\n"))
+        pair = ('// variant %d\na, b := 1, 2\nc, d, e, f := 3, 4, 5, 6\nfunc Sum() string {\n\ta = a + 10\n\treturn itoa(a) + "+" + itoa(b) + "+" + itoa(c) + itoa(d) + itoa(e) + itoa(f)\n}\n' % v)
+        out.append(("similar-hex-letters-%d" % v, {"main.tsh": 'import p "pair.tsh"\nprint(p.Sum())\n', "pair.tsh": pair}, "11+2+3456\n"))
+        sep = ('// variant %d\nvar a int = 1\nvar b int = 2\nvar _tmp string = "u"\nvar tmp string = "t"\nvar hx int = 7\nvar x int = 8\n'
+               'func add(n int) int {\n\treturn n + a\n}\nfunc dd(n int) int {\n\treturn n + b\n}\nfunc fCount() int {\n\treturn hx\n}\nfunc count() int {\n\treturn x\n}\n'
+               'func Show() string {\n\treturn itoa(add(10)) + " " + itoa(dd(10)) + " " + _tmp + tmp + " " + itoa(fCount()) + itoa(count())\n}\n' % v)
+        out.append(("similar-separate-definitions-%d" % v, {"main.tsh": 'import s "sep.tsh"\nprint(s.Show())\n', "sep.tsh": sep}, "11 12 ut 78\n"))
+    # an undefined name is not found through a longer or shorter one
+    lib = 'func hFoo() int {\n\treturn 1\n}\nfunc Foo() int {\n\treturn 2\n}\nfunc Both() int {\n\treturn hFoo() * 10 + Foo()\n}\n'
+    out.append(("similar-public-private", {"main.tsh": 'import l "lib.tsh"\nprint(l.Foo(), l.Both())\n', "lib.tsh": lib}, "2 12\n"))
+    out.append(("similar-private-through-alias", {"main.tsh": 'import l "lib.tsh"\nprint(l.hFoo())\n', "lib.tsh": lib}, None))
+    out.append(("similar-undefined-in-import", {"main.tsh": 'import l "lib.tsh"\nprint(l.Get())\n', "lib.tsh": 'var hx int = 3\nfunc Get() int {\n\treturn x\n}\n'}, None))
+    return out
+
+
 def defined_before_use(script):
     """every function the script invokes is defined in it before its first call (text level)"""
     defined = set()
@@ -428,7 +451,7 @@ def run(res, b, tier, seed):
         if c.out.get("BASH", ("", ""))[0] != "ERR":
             fails.append((c, "negative-accepted", dict(cls=c.out.get("BASH", ("", ""))[0])))
     # alias resolution matrix: rejected exactly when the property says so, accepted programs print the value of the function meant
-    am = [pipeline.Case("a" + name, {k: v.encode() for k, v in files.items()}, meta=dict(src=files["main.tsh"], expect=exp)) for name, files, exp in alias_matrix() + directory_cases() + global_cases() + toplevel_call_families() + initialisation_order_cases()]
+    am = [pipeline.Case("a" + name, {k: v.encode() for k, v in files.items()}, meta=dict(src=files["main.tsh"], expect=exp)) for name, files, exp in alias_matrix() + directory_cases() + global_cases() + toplevel_call_families() + initialisation_order_cases() + similar_name_cases()]
     pipeline.run_pipe(b, am, "as")
     acc = [c for c in am if c.out.get("BASH", ("", ""))[0] == "OK"]
     runs = common.pmap_proc(semcheck._exec, [(bytes.fromhex(c.out["BASH"][1]), b"") for c in acc])
